@@ -12,6 +12,7 @@ bounds and checks that each build accumulates every block exactly as the sequent
      compared bit for bit."""
 import itertools
 import json
+import gc
 import multiprocessing as real_mp
 import os
 import shutil
@@ -219,8 +220,12 @@ class FakeMP:
         self._sch = sch
         self.pools = 0
 
-    def Pool(self, processes=None, *a, **k):
+    def Pool(self, processes=None, initializer=None, initargs=(), maxtasksperchild=None, **k):
         self.pools += 1
+        if initializer is not None:
+            # a real pool runs the initializer once in every worker before its first task; the controlled pool's "workers" are
+            # this process, so it runs here, once, before any task - whatever it sets up (worker globals) the tasks then find
+            initializer(*initargs)
         return ControlledPool(self._sch, processes)
 
     def get_context(self, *a, **k):
@@ -234,12 +239,14 @@ def controlled_build(sc, cm, k, npairs, orders, layer_rank):
     cm.threads = k
     sch = Scheduler(npairs, orders, layer_rank)
     fake = FakeMP(sch)
-    orig = sc.multiprocessing
-    sc.multiprocessing = fake
+    orig = getattr(sc, "multiprocessing", None)     # a library that gets its workers elsewhere (concurrent.futures ...) is simply not
+    if orig is not None:                            # scheduled by this harness: its builds are then real ones (mode B decides)
+        sc.multiprocessing = fake
     try:
         out = np.array(cm.make_covariance_matrix(), copy=True)
     finally:
-        sc.multiprocessing = orig
+        if orig is not None:
+            sc.multiprocessing = orig
     return out, fake.pools, sch.log
 
 
@@ -323,9 +330,14 @@ def real_pool_build(sc, nw, k, delays, keys):
         out = np.array(cm.make_covariance_matrix(), copy=True)
     finally:
         sc.wfs_covariance = _ORIG
-        for p in real_mp.active_children():      # the library never closes its pools
-            if p.pid not in before:
-                p.terminate()
+    # the library never closes its pools: let the pool objects that are no longer referenced be finalised the regular way
+    # (Pool's own finaliser stops its workers).  Workers are NOT terminated behind a pool's back: a pool the library keeps on
+    # purpose (on the object, in a module global) would hang in its finaliser later on.  What is still alive is the library's.
+    cm = None
+    gc.collect()
+    t_end = time.time() + 5.0
+    while time.time() < t_end and any(p.pid not in before for p in real_mp.active_children()):
+        time.sleep(0.05)
     evs = [json.loads(x) for x in open(_LOGPATH)] if os.path.exists(_LOGPATH) else []
     shutil.rmtree(tmp, ignore_errors=True)
     evs.sort(key=lambda e: e["seq"])
